@@ -873,6 +873,27 @@ func (c *siChild) step(i int, op Op, quiet bool) Ev {
 			sm.RemoveStyle(o.id(op.Str("s")))
 			return "ok"
 		})
+	case "Edit":
+		// the registered object is edited in place through the pointer GetStyle hands out
+		each(func(v int, sm *style.StyleManager) string {
+			k := siK(op.Str("s"))
+			st := sm.GetStyle(o.ids[k-1])
+			if st == nil {
+				return "ok"
+			}
+			if b := op.Str("b"); b == "none" {
+				st.BasedOn = nil
+			} else if b != "keep" {
+				st.BasedOn = &style.BasedOn{Val: o.id(b)}
+			}
+			for ai, a := range siAttrs {
+				sl := siSlot(v, ai)
+				if (sl == "x" && op.Bool("x")) || (sl == "y" && op.Bool("y")) {
+					a.set(st, k)
+				}
+			}
+			return "ok"
+		})
 	case "Resolve":
 		id := o.id(op.Str("q"))
 		each(func(v int, sm *style.StyleManager) string {
@@ -1190,7 +1211,7 @@ func (s *siSup) lastWords() string {
 
 func siMutating(name string) bool {
 	switch name {
-	case "Load", "AddStyle", "RemoveStyle", "Create", "CloneSwap":
+	case "Load", "AddStyle", "RemoveStyle", "Create", "Edit", "CloneSwap":
 		return true
 	}
 	return false
@@ -1200,7 +1221,7 @@ func siResolver(name string) bool { return name == "Resolve" || name == "ToXML" 
 
 func siAbstractMutator(name string) bool {
 	switch name {
-	case "Load", "AddStyle", "RemoveStyle", "Create":
+	case "Load", "AddStyle", "RemoveStyle", "Create", "Edit":
 		return true
 	}
 	return false
